@@ -1843,6 +1843,12 @@ class PyCdlib:
         if self._rr_moved_rr_name is None:
             self._rr_moved_rr_name = b'rr_moved'
 
+        for child in self.pvd.root_directory_record().children:
+            if child.file_ident == self._rr_moved_name and child.is_dir():
+                # A directory of that name exists already; use it.
+                self._rr_moved_record = child
+                return 0
+
         # No rr_moved found, so we have to create it.
         rec = dr.DirectoryRecord()
         rec.new_dir(self.pvd, self._rr_moved_name,
